@@ -52,7 +52,8 @@ CF_REG, _x, CF_BAD = _resplit("CoapContentFormat", [CF_REG, CF_BAD])
 KTY_REG, _x, KTY_BAD = _resplit("KeyType", [KTY_REG, [v for v in KTY_BAD if v != 0]]); KTY_BAD = [0] + KTY_BAD; KTY_REG = [v for v in KTY_REG if v != 0]
 KOP_REG, _x, KOP_BAD = _resplit("KeyOperation", [KOP_REG, KOP_BAD])
 CLAIM_REG, CLAIM_PRIV, CLAIM_BAD = _resplit("CwtClaimName", [CLAIM_REG, CLAIM_PRIV, CLAIM_BAD], True)
-TEXT_LABELS = ['', 'a', 'alg', 'kid', 'b', 'aa', 'é', 'x' * 23, 'x' * 24, 'y' * 255, 'z' * 256]
+TEXT_LABELS = ['', 'a', 'alg', 'kid', 'b', 'aa', 'é', 'x' * 23, 'x' * 24, 'y' * 255, 'z' * 256,
+               '1', '2', '4', '7', '12', '-1', '007', '+5', '1000', '-65537']      # text that LOOKS like an integer label is still text
 OTHER_HDR_LABELS = [0, 8, 9, 10, 32, 33, 34, 35, 256, 257, -1, -2, -3, -6, -65536, -65537, 2**63 - 1, -2**63,
                     23, 24, 255, 65535, 65536, 2**32]
 TAGS = [0, 2, 3, 16, 17, 18, 61, 96, 97, 98, 55799, 2**64 - 1, 15, 19, 95, 99]
